@@ -1,9 +1,11 @@
 package main
 
 import (
+	"bytes"
 	"context"
 	"fmt"
 	"io"
+	"os"
 	"runtime"
 	"runtime/debug"
 )
@@ -46,8 +48,47 @@ func runFaulty(cs *caseT, readFail, writeFail int) *obsT {
 	return o
 }
 
+// runC04stalled: see the comment inside
+func runC04stalled(c *runCfg, g *gen) {
+	// a client that stops talking — silent after its startup packet (at the password prompt), inside a message, inside
+	// a COPY — keeps its own connection waiting and nobody else's: a second client of the same server is served
+	for si, stall := range [][]byte{stdStartup, cat(stdStartup, mPassword([]byte("pw"))[:3]), cat(stdStartup, mPassword([]byte("pw")), mQuery([]byte("select 1"))[:7]),
+		cat(stdStartup, mPassword([]byte("pw")), mQuery([]byte("copy")), mCopyData([]byte("a,b"))), stdStartup[:5]} {
+		for ai, auth := range []string{"pw", "accept"} {
+			cfg := g.robustCfg()
+			cfg.auth = auth
+			cfg.authPW = []byte("pw")
+			reg := &registry{recs: map[string]*recorder{}}
+			silent := flatCase(0, "stalled_peer", cfg, stall, nil)
+			sconn, _ := newSession(silent, reg)
+			srv, err := buildServer(&cfg, reg)
+			if err != nil {
+				panic(err)
+			}
+			so := &obsT{}
+			serveAsync(srv, sconn, so)
+			sconn.push(stall)
+			sconn.waitIdle(idleTimeout)
+			other := lockCase(0, "stalled_peer", cfg, startupMsg("user", "second"), [][]byte{mPassword([]byte("pw")), mQuery([]byte("select 1")), mTerminate()})
+			other.pre = 2
+			other.id = fmt.Sprintf("%d", 950000+2*si+ai)
+			oconn, orec := newSession(other, reg)
+			o := driveSession(other, oconn, orec, srv)
+			c.out.line("(sess " + other.id + " " + other.class + " " + other.sxHead() + " " + o.sx(false) + ")")
+			c.stat("class_stalled_peer")
+			sconn.setEOF()
+			sconn.waitFinished(idleTimeout)
+		}
+	}
+}
+
 func runC04(c *runCfg) error {
 	if c.replay != "" {
+		if b, err := os.ReadFile(c.replay); err == nil && bytes.Contains(b, []byte(" stalled_peer ")) {
+			// a connection judged next to a silent peer: the scenarios are run again as a whole
+			runC04stalled(c, &gen{rng: c.rng})
+			return nil
+		}
 		return replaySessions(c)
 	}
 	g := &gen{rng: c.rng}
@@ -273,6 +314,7 @@ func runC04(c *runCfg) error {
 			id++
 		}
 	}
+	runC04stalled(c, g)
 	// the library's binary COPY row reader on a transport that breaks with a persistent non-EOF error after
 	// EVERY byte offset (header, rows, trailer, bytes behind the trailer, CopyDone): handling ends, no retry loop
 	{
@@ -347,6 +389,47 @@ func runC04(c *runCfg) error {
 			c.stat("class_alloc")
 			id++
 		}
+	}
+	// ignored messages cost nothing that accumulates: a long run of Sync / Flush inside a COPY (the server must ignore
+	// them) leaves the stack of the connection's goroutine where it was (measured: stack memory in use)
+	{
+		cfg := g.robustCfg()
+		cfg.auth = "none"
+		cfg.limit = 1024
+		reg := &registry{recs: map[string]*recorder{}}
+		cs := flatCase(0, "stack", cfg, nil, nil)
+		conn, _ := newSession(cs, reg)
+		srv, _ := buildServer(&cs.cfg, reg)
+		o := &obsT{}
+		serveAsync(srv, conn, o)
+		conn.push(stdStartup)
+		conn.push(mQuery([]byte("copy")))
+		conn.push(mCopyData([]byte("a,b")))
+		conn.waitIdle(idleTimeout)
+		var before, after runtime.MemStats
+		runtime.ReadMemStats(&before)
+		n := 150000
+		noise := make([]byte, 0, 5*n)
+		for i := 0; i < n; i++ {
+			if i%2 == 0 {
+				noise = append(noise, mSync()...)
+			} else {
+				noise = append(noise, mFlush()...)
+			}
+		}
+		conn.push(noise)
+		conn.waitIdle(idleTimeout)
+		runtime.ReadMemStats(&after)
+		conn.push(mCopyDone())
+		conn.setEOF()
+		conn.waitFinished(idleTimeout)
+		var delta uint64
+		if after.StackInuse > before.StackInuse {
+			delta = after.StackInuse - before.StackInuse
+		}
+		c.out.line(sx("alloc", id, "stack_copy_noise", sx("limit", 1024), sx("which", 0), sx("delta", delta), sx("bound", 2<<20), sx("panic", o.panicv != "")))
+		c.stat("class_stack_copy_noise")
+		id++
 	}
 	// the same measurement inside a TLS session: the reader of the upgraded connection obeys the configured limit
 	for _, L := range []int{1024, 65536} {
